@@ -1,6 +1,7 @@
 package main
 
 import (
+	"go/token"
 	"fmt"
 	"go/types"
 	"math"
@@ -45,6 +46,13 @@ func (vc *VC) isDropped(fn *ssa.Function) bool {
 		pkg = fn.Object().Pkg().Path()
 	}
 	if vc.isLockCall(fn) {
+		return true
+	}
+	// event senders: no effect on scheduler objects (DESIGN 3.3 item 1); calls inside pkg/events itself are kept
+	if pkg == modulePath+"/pkg/scheduler/objects/events" {
+		return true
+	}
+	if pkg == modulePath+"/pkg/events" && (vc.fn == nil || vc.fn.Pkg == nil || vc.fn.Pkg.Pkg.Path() != pkg) {
 		return true
 	}
 	for _, p := range droppedPkgPrefixes {
@@ -92,10 +100,13 @@ func (vc *VC) call(st *State, v *ssa.Call, c *ssa.CallCommon) error {
 		return nil
 	}
 	key := funcKey(callee)
-	vc.callOrd[key]++
-	ord := vc.callOrd[key]
-	if err := vc.siteAsserts(st, "call", key, ord, "before", c.Args, nil); err != nil {
-		return err
+	ord := 0
+	if vc.inlineDepth == 0 { // anchors count the calls written in the function under contract itself
+		vc.callOrd[key]++
+		ord = vc.callOrd[key]
+		if err := vc.siteAsserts(st, "call", key, ord, "before", c.Args, nil); err != nil {
+			return err
+		}
 	}
 	if spec := vc.cs.Funcs[key]; spec != nil {
 		if err := vc.callContract(st, resV, c, callee, spec, ord); err != nil {
@@ -103,8 +114,15 @@ func (vc *VC) call(st *State, v *ssa.Call, c *ssa.CallCommon) error {
 		}
 	} else if vc.isDropped(callee) {
 		vc.droppedCall(st, resV, callee, c)
+	} else if ok, err := vc.tryInline(st, resV, callee, c.Args); ok || err != nil {
+		if err != nil {
+			return err
+		}
 	} else {
 		vc.unknownCall(st, resV, c, "call of "+key+" (no contract)")
+	}
+	if vc.inlineDepth > 0 {
+		return nil
 	}
 	return vc.siteAsserts(st, "call", key, ord, "after", c.Args, resV)
 }
@@ -186,7 +204,50 @@ func (vc *VC) droppedCall(st *State, resV ssa.Value, callee *ssa.Function, c *ss
 	}
 }
 
+// havocCaptured forgets the caller's local cells that a closure captures by reference and assigns.
+func (vc *VC) havocCaptured(st *State, c *ssa.CallCommon) {
+	mc, ok := c.Value.(*ssa.MakeClosure)
+	if !ok {
+		return
+	}
+	fn, ok := mc.Fn.(*ssa.Function)
+	if !ok {
+		return
+	}
+	written := map[*ssa.FreeVar]bool{}
+	var scan func(f *ssa.Function)
+	scan = func(f *ssa.Function) {
+		for _, b := range f.Blocks {
+			for _, ins := range b.Instrs {
+				if s, ok := ins.(*ssa.Store); ok {
+					if fv, ok := s.Addr.(*ssa.FreeVar); ok {
+						written[fv] = true
+					}
+				}
+			}
+		}
+	}
+	scan(fn)
+	for i, fv := range fn.FreeVars {
+		if i >= len(mc.Bindings) {
+			break
+		}
+		al, ok := mc.Bindings[i].(*ssa.Alloc)
+		if !ok {
+			continue
+		}
+		if written[fv] || len(fn.AnonFuncs) > 0 {
+			if _, live := st.cells[al]; live {
+				ty := al.Type().(*types.Pointer).Elem()
+				st.cells[al] = vc.declare("captured_"+al.Comment, vc.sortOf(ty))
+				vc.assumeType(st, st.cells[al], ty)
+			}
+		}
+	}
+}
+
 func (vc *VC) unknownCall(st *State, resV ssa.Value, c *ssa.CallCommon, why string) {
+	vc.havocCaptured(st, c)
 	if vc.ms != nil {
 		if eff := vc.ms.effectOf(c, vc.fn); eff != nil && !eff.all {
 			vc.havocComps(st, eff.comps, why)
@@ -650,4 +711,101 @@ func (vc *VC) callerAllowsAll(comp string) bool {
 		}
 	}
 	return false
+}
+
+// tryInline executes a small straight-line module function without contract (getters, setters, thin
+// wrappers) in place: its single block is run on the caller's state with the parameters bound to the
+// arguments. The verified text stays the code that runs; no annotation is needed for such functions.
+func (vc *VC) tryInline(st *State, resV ssa.Value, callee *ssa.Function, args []ssa.Value) (bool, error) {
+	if !inModule(callee) || len(callee.Blocks) == 0 || len(callee.Blocks) > 2 || vc.inlineDepth >= 4 {
+		return false, nil
+	}
+	b := callee.Blocks[0]
+	if len(b.Instrs) == 0 || len(b.Instrs) > 60 {
+		return false, nil
+	}
+	ret, ok := b.Instrs[len(b.Instrs)-1].(*ssa.Return)
+	if !ok {
+		return false, nil
+	}
+	if len(callee.Blocks) == 2 && (len(callee.Blocks[1].Preds) != 0) {
+		return false, nil // second block must be the unreachable recover block
+	}
+	for _, ins := range b.Instrs {
+		switch x := ins.(type) {
+		case *ssa.Alloc, *ssa.Store, *ssa.UnOp, *ssa.BinOp, *ssa.FieldAddr, *ssa.Field, *ssa.Convert, *ssa.ChangeType,
+			*ssa.RunDefers, *ssa.Return, *ssa.DebugRef, *ssa.MakeInterface, *ssa.ChangeInterface, *ssa.Lookup, *ssa.Extract, *ssa.IndexAddr:
+			if u, ok := ins.(*ssa.UnOp); ok && u.Op == token.ARROW {
+				return false, nil
+			}
+		case *ssa.Call:
+			if !vc.inlineableCall(&x.Call) {
+				return false, nil
+			}
+		case *ssa.Defer:
+			if !vc.inlineableCall(&x.Call) {
+				return false, nil
+			}
+		default:
+			return false, nil
+		}
+	}
+	if len(args) != len(callee.Params) {
+		return false, nil
+	}
+	for i, p := range callee.Params {
+		vc.vals[p] = vc.val(st, args[i])
+		if a, ok := vc.addrs[args[i]]; ok {
+			vc.addrs[p] = a
+		}
+	}
+	saved := st.defers
+	st.defers = nil
+	vc.inlineDepth++
+	defer func() { vc.inlineDepth--; st.defers = saved }()
+	vc.note("inlined " + funcKey(callee))
+	for _, ins := range b.Instrs[:len(b.Instrs)-1] {
+		if err := vc.exec(st, ins); err != nil {
+			return true, err
+		}
+	}
+	if resV != nil {
+		switch len(ret.Results) {
+		case 0:
+		case 1:
+			vc.vals[resV] = vc.val(st, ret.Results[0])
+			if a, ok := vc.addrs[ret.Results[0]]; ok {
+				vc.addrs[resV] = a
+			}
+		default:
+			var ts []string
+			for _, r := range ret.Results {
+				ts = append(ts, vc.val(st, r))
+			}
+			vc.tuples[resV] = ts
+		}
+	}
+	return true, nil
+}
+
+func (vc *VC) inlineableCall(c *ssa.CallCommon) bool {
+	if b, ok := c.Value.(*ssa.Builtin); ok {
+		switch b.Name() {
+		case "len", "cap", "ssa:deferstack", "ssa:wrapnilchk", "min", "max":
+			return true
+		}
+		return false
+	}
+	if c.IsInvoke() {
+		return false
+	}
+	callee := c.StaticCallee()
+	if callee == nil {
+		return false
+	}
+	if vc.isDropped(callee) || vc.cs.Funcs[funcKey(callee)] != nil {
+		return true
+	}
+	// nested small function: decided when it is reached (falls back to a mod-set havoc, which is sound)
+	return inModule(callee)
 }
